@@ -1,6 +1,7 @@
 SPECIFICATION SimSpec
 CONSTANTS
   WorkerCpus <- S2_Workers
+  WorkerGroup <- S2_Groups
   Menu <- S2_Menu
   Classes <- S2_Classes
   MaxLosses = 1
@@ -40,3 +41,5 @@ INVARIANTS
   C13_CompletedOnce
   C14_AbortAllOnExceed
   C14_ExceededStopped
+  C05_MnExclusive
+  C05_MnWorkersIdle
